@@ -13,6 +13,7 @@ RULE = (
     "not the globally cheapest true assertion. distinct = canonical JSON."
 )
 ASSUMPTIONS = [
+    "difficulty functions: the two shipped ones and four generated ones that decrease as the margin grows (some non-positive, some below -10)",
     "as C04; difficulty functions decrease as the margin grows (both shipped ones do)",
     "profiles for which no audit is possible are C04's business and skipped here",
 ]
